@@ -82,6 +82,12 @@ func (s *sess) tarStep(op Op) *fail {
 			if closer == nil {
 				return &fail{"tarfile", "a closer that can be called", "Tarfile returned a nil io.Closer"}
 			}
+			// Let the decoder finish with the member before the member is used again: the zstd decoder reads its input
+			// in goroutines of its own, and the closer the library returns for it does not stop them; once the
+			// decompressed stream has reported its end (or its error) nothing reads the member's Data any more.
+			if rd, ok := closer.(io.Reader); ok {
+				io.Copy(io.Discard, io.LimitReader(rd, 1<<26))
+			}
 			for c := 0; c < op.C; c++ {
 				closer.Close() // what it returns is not judged; a panic is caught by step
 			}
